@@ -24,6 +24,8 @@ EXPLANATION = ('Rules DRV-RESET, DRV-SEQ, DRV-SIB, DRV-REFILL, VM-STATEINIT, BIN
 CLAIM += (' No plain member of a JIT compiler object that the constructor leaves indeterminate is read by the functions that give it its first value (CTOR-INIT: a new object is carved out of recycled heap memory, so such a read depends on what lived there before).')
 EXPLANATION += ' CTOR-INIT (x86, A64, RV64).'
 
+EXPLANATION += ' VM-INITORDER.'
+
 
 def run(ctx, R):
     F = astq.Facts(ctx, 'K0')
